@@ -239,7 +239,7 @@ def replay_model(res, tier, wd, exe):
 
 def c20(res, tier, seed):
     wd = yv.workdir("C20")
-    m = yv.tlc("ExternalsMC", "MC_Externals.cfg", wd, timeout=1200)
+    m = yv.tlc("ExternalsMC", "MC_Externals.cfg", wd, timeout=1200, tier=tier)
     if not m["violated"]:
         yv.require_tlc_ok(m, "MC_Externals.cfg")
     res.add_tlc("externals", m)
